@@ -28,6 +28,17 @@ CHECKS = {
          "Java/C references built offline by setup.sh (falls back to the Python transcription, and says so); C murmurhash2 extension absent so only the pure-Python hash runs", "3/C18"),
 }
 
+CHECKS.update({
+ "C06": ("brokerclient", "exploration",
+         "history monitor at the client boundary (one recorder per request Deferred + AlreadyCalledError trap) against the server's frame log; differential re-run for non-interference",
+         "The real _KafkaBrokerClient/KafkaProtocol and KafkaBootstrapProtocol run over an in-memory network against a scripted raw server (late, duplicate, swapped, unsolicited and oversize frames; arbitrary chunking; cuts; cancels, disconnect, close, also from inside completion callbacks). Each request must fire exactly once with the first delivered frame bearing its id, or with CancelledError/ClientError for the right reason; removing unsolicited frames from the plan must not change any outcome.",
+         "simnet models Twisted TCP transport semantics (no dataReceived after loseConnection, writes in the same turn still flushed); bootstrap protocol exempt from non-interference by design", "3/C06"),
+ "C10": ("brokerclient", "fault_enumeration",
+         "online trace checker replayed over the unified event log (issues, cancels, fires, attempts, per-connection writes, losses, quiescent points); cut points enumerated",
+         "Same engine as C06. A model of 'live' requests is updated event by event: every write must be a live request, once per connection, re-sent ones in issue order; at every quiescent point a live request implies a connection carrying it, an attempt, or a back-off whose length equals the injected policy f(n); nothing is dialled when idle or after close; close's Deferred fires once after the connection is gone. Every byte offset of the first connection in both directions, cuts while connecting and during back-off 1..3 are enumerated on small scripts.",
+         "order is required among re-sent requests only (what the statement says); a running back-off loop is allowed to continue after its last request is cancelled", "3/C10"),
+})
+
 PENDING = {}
 
 def main():
@@ -60,6 +71,7 @@ def main():
                   "source_commits": [], "add_only": True},
         "engines": [
             {"name": "pure", "path": "afkverif/props", "serves_properties": ["C15", "C18"], "kind_free_text": "direct calls of pure functions under generated inputs with reference oracles"},
+            {"name": "brokerclient", "path": "afkverif/engines/bc.py", "serves_properties": ["C06", "C10"], "kind_free_text": "real _KafkaBrokerClient / KafkaBootstrapProtocol over simnet (virtual clock, in-memory transports) against a scripted raw server"},
             {"name": "codec", "path": "afkverif/refproto.py", "serves_properties": ["C04", "C05", "C12"], "kind_free_text": "independent strict Kafka wire codec used as differential oracle"},
         ],
         "checks": checks,
